@@ -28,6 +28,8 @@ def build(profile='dev'):
     cache = os.environ.get('VERIF_CARGO_CACHE', os.path.join(VERIF, '.cache', 'target-replay'))
     os.makedirs(cache, exist_ok=True)
     env = dict(os.environ, CARGO_NET_OFFLINE='true', CARGO_TARGET_DIR=cache)
+    # the scheduling-point hook of /repo (MANIFEST.hooks) is compiled in for the replay driver only
+    env['RUSTFLAGS'] = (env.get('RUSTFLAGS', '') + ' --cfg cadence_verif').strip()
     cmd = ['cargo', 'build', '--offline', '-q'] + (['--release'] if profile == 'release' else [])
     t0 = time.time()
     r = subprocess.run(cmd, cwd=crate, env=env, capture_output=True, text=True)
